@@ -279,12 +279,17 @@ class Run:
 
     def one(self, start, behaviour, script, nconn=1):
         from vf.simnet.harness import Inconclusive
+        n0 = len(self.wit)
         c = Case(start, behaviour, [list(x) if isinstance(x, tuple) else x for x in script], self, nconn)
         try:
             c.execute()
         except Inconclusive as e:
             self.cov["inconclusive_cases"] = self.cov.get("inconclusive_cases", 0) + 1
             self.last_inconclusive = str(e)
+        if c.h.thread_exc and len(self.wit) > n0:
+            # a node thread died in this case (C14's subject): what the other oracles saw afterwards is void
+            del self.wit[n0:]
+            self.cov["cases_voided_by_thread_death"] = self.cov.get("cases_voided_by_thread_death", 0) + 1
         self.evals += 1
         self.cov["answers_matched"] += c.matched
         self.cov["by_start"][start] = self.cov["by_start"].get(start, 0) + 1
